@@ -112,6 +112,8 @@ ATOMS = {
     "many_pos_star": dict(codes=[], enable=["too_many_positional_args"], lines=["print(takes_many({n}, *pair, 4))"], simple=True, needs_max_pos=True),
     "bad_format": dict(codes=["bad_format_string"], lines=["print(\"%d %d\" % ({n},))"], simple=True),
     "call_kw": dict(codes=["incompatible_call"], lines=["takes_int({n}, bogus_{n}=1)"], simple=True),
+    "fstring_elif": dict(codes=["use_fstrings"], enable=["use_fstrings"], lines=["if not p:", "    print({n})", "elif \"<%s> {n}\" % q:", "    print(p)"], simple=False, fix=True),
+    "many_pos_elif": dict(codes=["too_many_positional_args"], enable=["too_many_positional_args"], lines=["if not p:", "    print({n})", "elif takes_many({n}, 2, 3, 4):", "    print(p)"], simple=False, fix=True, needs_max_pos=True),
     "elif_cond": dict(codes=["undefined_name"], lines=["if p:", "    print({n})", "elif undefined_{n}:", "    print(p)"], simple=False),
     # fixable statements spanning several physical lines, with different closing styles
     "unused_ml_bare": dict(codes=["unused_variable"], lines=["unused_{n} = takes_two(", "    {n},", "    2,", ")"], simple=False, fix=True),
@@ -245,6 +247,11 @@ ASYNQ_ATOMS = {
     "hoist_vs_builtin": ["hc_{n} = yield STORE.get_count.asynq(q)", "ht_{n} = {n}", "ht_{n} += yield STORE.get_max.asynq(q)", "print(max(hc_{n}, ht_{n}))"],
     "hoist_vs_global": ["hb_{n} = settings[\"bonus\"]", "hc_{n} = yield STORE.get_count.asynq(q)", "ht_{n} = hb_{n}", "ht_{n} += yield STORE.get_settings.asynq(q)", "print(hc_{n} + ht_{n})"],
     "hoist_call_arg": ["hc_{n} = yield STORE.get_count.asynq(q)", "print(takes_two(hc_{n}, (yield STORE.get_max.asynq(q))), max(1, {n}))"],
+    # the hoisted yield's argument is computed BETWEEN the two yields: it cannot move above that
+    "hoist_dep": ["hc_{n} = yield STORE.get_count.asynq(q)", "mid_{n} = q + \"x{n}\"", "ht_{n} = {n}", "ht_{n} += yield STORE.get_peak.asynq(mid_{n})", "print(hc_{n}, ht_{n})"],
+    "hoist_first_dep": ["ht_{n} = {n}", "ht_{n} += yield STORE.get_count.asynq(q)", "mid_{n} = q + \"y{n}\"", "hd_{n} = yield STORE.get_peak.asynq(mid_{n})", "print(ht_{n}, hd_{n})"],
+    "aug_use_then_yield": ["hu_{n} = yield fetch.asynq({n})", "tot_{n} = p", "tot_{n} += hu_{n}", "hv_{n} = yield fetch.asynq(p)", "print(tot_{n}, hv_{n})"],
+    "impure_call_elif": ["if not p:", "    print({n})", "elif fetch(p + {n}):", "    print(p)"],
     "hoist_vs_local": ["peak = {n}", "hc_{n} = yield STORE.get_count.asynq(q)", "ht_{n} = peak", "ht_{n} += yield STORE.get_peak.asynq(q)", "print(hc_{n}, ht_{n}, peak)"],
 }
 
